@@ -137,6 +137,12 @@ class Acceptor:
         self.weak_prev = {}
         self.weak_grow = {}
         self.gsite_by_name = {g['name']: g for g in self.ix.gsites}
+        # rows whose source is an exit pseudo state (C09): their sites
+        self.exit_row_sites = set()
+        for m in self.ix.order:
+            for row in m['table']:
+                if isinstance(row['src'], tuple) and row.get('_site'):
+                    self.exit_row_sites.add(row['_site'])
 
     # ------------------------------------------------------------------ coverage
     def hit(self, prop, key):
@@ -176,6 +182,8 @@ class Acceptor:
         if got is None:
             got = self.peek()
         tags = set(tags)
+        if self.in_round is not None:
+            tags.add('C10')         # the expectation belongs to a completion step (fires on entry, chain runs on)
         # classify re-entrancy / duplicate dispatch: the unexpected record belongs to an occurrence
         # that is pending on a machine that is still inside a step, or that was already dispatched
         if got is not None and getattr(got, 'id', -1) >= 0 and got.k in ('G', 'A', 'EN', 'EX', 'NT'):
@@ -282,6 +290,8 @@ class Acceptor:
             self.skip_completion_retries()
             got = self.peek()
         if got is None or got.k != kind or got.site != site:
+            if got is not None and got.k in ('G', 'A') and got.site.rsplit('.', 1)[0] in self.exit_row_sites:
+                tags = set(tags) | {'C09'}      # a row leaving an exit pseudo state ran where it was not expected
             if got is not None and got.k == 'NT' and kind != 'NT':
                 tags = set(tags) | {'C06'}      # no_transition although something matched (C06 'exactly when')
                 if mi is not None and got.m.split(':')[-1] != mi.name:
@@ -1157,12 +1167,14 @@ class Acceptor:
         walk(root, root.name)
         return out
 
-    def check_snapshot(self, root, rec):
+    def check_snapshot(self, root, rec, after_throw=False):
         levels, queues, extras = parse_snap(rec)
         exp = self.expected_levels(root)
         got = {p: v[0] for p, v in levels.items()}
         if got != exp:
-            self.reject({'C02', 'C03', 'C07'}, 'snapshot-config', exp, rec)
+            # after a contained exception the configuration is the one the switch policy prescribes for
+            # the phase of the throw (C12)
+            self.reject({'C02', 'C03', 'C07'} | ({'C12', 'C19'} if after_throw else set()), 'snapshot-config', exp, rec)
         self.hit('C03', tuple(sorted((p, tuple(v)) for p, v in exp.items())))
         # pending counts (C04 / C05): message + deferred queues, or the pool
         for mi in root.all():
@@ -1283,12 +1295,13 @@ class Acceptor:
                 self.reject({'C06'}, 'handled-bit', 'handled=%s' % bool(rc_expected & T), nxt)
             if (rc == 0) != (rc_expected == 0):
                 self.reject({'C06'}, 'zero-code', 'zero=%s' % (rc_expected == 0), nxt)
+        threw_in_op = self.counts.get('throws', 0) != threw_before or self.threw
         self.threw = False
         self.quiescent(root, 'blocked' if (rc_expected == 'blocked' or was_early) else op)
         nxt = self.peek()
         if nxt is not None and nxt.k == 'SNAP':
             self.take()
-            self.check_snapshot(root, nxt)
+            self.check_snapshot(root, nxt, after_throw=threw_in_op)
 
     def weak_resync(self):
         while self.pos < len(self.recs) and self.recs[self.pos].k != 'CALL':
